@@ -110,6 +110,37 @@ func smtFaults() []smtFault {
 			p.IssuerData.ID = victimDID
 			p.IssuerData.State.Value = victimState
 		}},
+		{name: "own-tree-victim-genesis-state-unpublished", apply: func(s *verifySetup, p *verifiable.Iden3SparseMerkleTreeProof, res *resolverCfg, r *Rng) {
+			// a forger's tree holding the claim, under the victim's DID and the genesis state that DID commits to; nothing was published
+			o := NewIssuer(r, r.Intn(4))
+			np, err := o.IssueSMT(s.claim)
+			if err != nil {
+				return
+			}
+			victimDID := p.IssuerData.ID
+			*p = *np
+			p.IssuerData.ID = victimDID
+			p.IssuerData.State.Value = hexOfInt(s.is.genesis)
+			res.mode = r.Pick([]string{"unpublished", "nil"})
+		}},
+		{name: "genesis-state-one-root-replaced-unpublished", apply: func(s *verifySetup, p *verifiable.Iden3SparseMerkleTreeProof, res *resolverCfg, r *Rng) {
+			// the issuer's real tree and proof, the genesis state of its DID, but a revocation or roots-of-roots root of the forger's choosing
+			p.IssuerData.State.Value = hexOfInt(s.is.genesis)
+			if r.Bool() {
+				p.IssuerData.State.RevocationTreeRoot = hexOfInt(r.BigBelow(poseidonQ()))
+			} else {
+				p.IssuerData.State.RootOfRoots = hexOfInt(r.BigBelow(poseidonQ()))
+			}
+			res.mode = r.Pick([]string{"unpublished", "nil"})
+		}},
+		{name: "claim-in-genesis-tree-unpublished", benign: true, apply: func(s *verifySetup, p *verifiable.Iden3SparseMerkleTreeProof, res *resolverCfg, r *Rng) {
+			// completeness on the genesis branch: an identity whose genesis claims tree already holds the claim (the credential then
+			// names another DID as issuer, which verification does not look at), state never published
+			o := NewIssuerWith(r, 0, s.claim)
+			*p = *o.ProofSMT(s.claim)
+			s.is = o
+			res.mode = r.Pick([]string{"unpublished", "nil"})
+		}},
 		{name: "rev-root-replaced", apply: func(s *verifySetup, p *verifiable.Iden3SparseMerkleTreeProof, res *resolverCfg, r *Rng) {
 			p.IssuerData.State.RevocationTreeRoot = hexOfInt(r.BigBelow(poseidonQ()))
 		}},
